@@ -60,8 +60,11 @@ func CStrDup(s String) *int8 {
 }
 
 func StringSlice(base String, i, j int) String {
-	if i < 0 || j < i || j > base.len {
-		panic("string slice index out of bounds")
+	if j < 0 || j > base.len {
+		panic(boundsError{x: int64(j), signed: true, y: base.len, code: boundsSliceAlen})
+	}
+	if i < 0 || i > j {
+		panic(boundsError{x: int64(i), signed: true, y: j, code: boundsSliceB})
 	}
 	if i < base.len {
 		return String{c.Advance(base.data, i), j - i}
